@@ -44,6 +44,20 @@ Theorem C16_graph_search_stream :
 Proof. exact graph_search_stream_clip. Qed.
 Print Assumptions C16_graph_search_stream.
 
+(* A second defect found with this property and repaired (fix: commit ea4fd27 in /repo):
+   LimitOffsetHandler::new computed `limit + offset` unchecked in u64 — a debug build panicked
+   and a release build wrapped whenever limit + offset >= 2^64 (offset 2, limit u64::MAX on five
+   elements returned [] instead of [3; 4; 5]).  It now saturates.  The model adds in Z; the
+   saturated and the exact sum give the same handler results while the number of selected
+   elements stays below 2^64 - 2, so the streaming theorems transfer to the repaired code. *)
+Theorem C16_limit_offset_no_wrap :
+  forall limit offset counter control,
+    0 <= counter -> counter + 1 < u64_max ->
+    handle (HLimitOffset (Z.min (limit + offset) u64_max) offset) counter control =
+    handle (HLimitOffset (limit + offset) offset) counter control.
+Proof. exact limit_offset_no_wrap. Qed.
+Print Assumptions C16_limit_offset_no_wrap.
+
 (* (c) SearchQuery::slice after the repair: total, equal to clip — for every limit / offset *)
 Theorem C16_slice :
   forall limit offset ids,
